@@ -42,7 +42,9 @@ Theorem C16_typed_values_survive :
   /\ (forall sh d, reader_exact RNdInt (VArr TI64 sh d) = true) /\ (forall z, in_i64 z = true -> reader_exact RInt (VInt z) = true)
   /\ (forall l, Forall (Forall scalar) l -> reader_exact RNdUtf8 (VStrs l) = true)
   /\ (forall s0, Forall scalar s0 -> reader_exact RUtf8 (VStr s0) = true).
-Proof. repeat split; [apply exact_nd | apply exact_nd_int8 | apply exact_nd_int | apply exact_int | apply exact_strs | apply exact_str]. Qed.
+Proof.
+  split; [exact exact_nd|]. split; [exact exact_nd_int8|]. split; [exact exact_nd_int|]. split; [exact exact_int|]. split; [exact exact_strs | exact exact_str].
+Qed.
 Print Assumptions C16_typed_values_survive.
 
 (** the behaviour before commit 5ae6bde7 (None fields skipped): overwriting a labelled genotype matrix with an unlabelled one
@@ -76,13 +78,16 @@ Theorem C16_tables_written_eq_read :
   forallb written_eq_read all_specs = true /\ forallb required_unguarded all_specs = true
   /\ forallb reads_reach_object all_specs = true /\ forallb meta_persisted persistable = true
   /\ map cname persistable = ["DM"; "TM"; "VrM"; "GM"; "PGM"; "BV"; "CM"; "STT"; "VM"; "ALGM"; "ADLGM"; "GE"]%string.
-Proof. repeat split; [exact tables_written_eq_read | exact tables_required_unguarded | exact tables_reads_reach_object | exact tables_meta_persisted | exact persistable_names]. Qed.
+Proof.
+  split; [exact tables_written_eq_read|]. split; [exact tables_required_unguarded|]. split; [exact tables_reads_reach_object|].
+  split; [exact tables_meta_persisted | exact persistable_names].
+Qed.
 Print Assumptions C16_tables_written_eq_read.
 
 Theorem C16_tables_copied_superset :
   forallb copied_superset all_specs = true /\ forallb (deep_is_deep shared_ok) all_specs = true
   /\ forallb (shallow_copies shared_ok) all_specs = true /\ length all_specs = 14%nat.
-Proof. repeat split; [exact tables_copied_superset | exact tables_deep_is_deep | exact tables_shallow_copies]. Qed.
+Proof. split; [exact tables_copied_superset|]. split; [exact tables_deep_is_deep|]. split; [exact tables_shallow_copies | reflexivity]. Qed.
 Print Assumptions C16_tables_copied_superset.
 
 (** ** copies *)
@@ -185,7 +190,7 @@ Example C16_hyps_satisfiable :
   wf_obj spec_GM w_rich = true /\ wf_obj spec_GM w_poor = true /\ In spec_GM flat_classes
   /\ (exists f2, write_all true spec_GM [] w_group [w_rich; w_poor] = (f2, None))
   /\ opt_eqb vm_eqb (vm_from_pandas true (vm_to_pandas true w_vm_sorted)) (Some w_vm_sorted) = true
-  /\ (exists h' o', class_copy [spec_ALGM] 4 true spec_BV [CArr (VArr TF64 [1; 1] [0])] [("mat"%string, HRef 0)] = Some (h', o')).
+  /\ (exists h' o', class_copy [spec_ALGM] 4 true spec_BV [CArr (VArr TF64 [1; 1] [0])] [("mat"%string, HRef 0%nat)] = Some (h', o')).
 Proof.
   destruct w_objs_wf as [A [B C]]. split; [exact A|]. split; [exact B|]. split; [exact C|].
   split; [eexists; vm_compute; reflexivity|]. split; [exact vm_pandas_sorted_ok|]. eexists. eexists. vm_compute. reflexivity.
